@@ -23,6 +23,11 @@
      "fanA"   publish; scores; publish; hb; publish (fanout maintenance: drop below publish)
      "fanB"   scores; publish; hb; publish          (fanout selection, flood publish)
      "joinfan" publish; scores; join; hb            (fanout promotion drops negative scores)
+     "graftfull" small degrees (D=2,Dlo=1,Dhi=3,Dscore=1,Dout=0), five inbound peers: the node joins, p2..p5
+               GRAFT until the mesh is at Dhi; score(p1,v); GRAFT from p1; hb  (negative score AND mesh full:
+               the mesh-full refusal is the only one that keeps PX, so the order of the checks matters)
+     "graftbo" PRUNE from p1 (backoff); score(p1,v); GRAFT from p1; hb         (negative score AND backoff)
+               (negative score AND direct sender is family rpc1 in its direct variant)
    Preamble: p1..p3 connect (p1 subscribes late when Late, so that it is known in
    the topic but outside the mesh), direct peers are declared, the node joins
    when StartJoined.                                                         *)
@@ -56,6 +61,7 @@ Variants(f) ==
     CASE f = "rpc1"  -> {Variant({}, {}, FALSE, TRUE, TRUE), Variant({}, {}, FALSE, FALSE, FALSE), Variant({"p1"}, {}, FALSE, TRUE, TRUE)}
       [] f = "rpc2"  -> {Variant({}, {}, FALSE, TRUE, TRUE)}
       [] f = "mix"   -> {Variant({}, {}, FALSE, TRUE, TRUE), Variant({"p1"}, {}, FALSE, TRUE, TRUE)}
+      [] f \in {"graftfull", "graftbo"} -> {Variant({}, {}, FALSE, TRUE, TRUE)}
       [] f = "px"    -> {Variant({}, {}, FALSE, TRUE, TRUE), Variant({}, {}, FALSE, FALSE, FALSE)}
       [] f = "gater" -> {Variant({}, {}, FALSE, TRUE, TRUE), Variant({"p1"}, {}, FALSE, TRUE, TRUE)}
       \* the floodsub / direct peer is p2 so that its score varies even when VecMode = "pairs"
@@ -65,16 +71,17 @@ Variants(f) ==
 
 Probe == "p1"
 T == "T1"
-PeerSeq == <<"p1", "p2", "p3">>
+PeerSeq == IF fam = "graftfull" THEN <<"p1", "p2", "p3", "p4", "p5">> ELSE <<"p1", "p2", "p3">>
 Num(i) == ToString(i)
 
 Proto(p) == IF p \in var.fproto THEN "flood" ELSE IF p = "p3" THEN "v12" ELSE "v11"
 Preamble ==
-    LET conn == [i \in 1..3 |-> [a |-> "peer", p |-> PeerSeq[i], proto |-> Proto(PeerSeq[i]), dir |-> "in",
+    LET conn == [i \in DOMAIN PeerSeq |-> [a |-> "peer", p |-> PeerSeq[i], proto |-> Proto(PeerSeq[i]), dir |-> "in",
                                  subs |-> IF Late /\ PeerSeq[i] = Probe THEN <<>> ELSE <<T>>]]
-        dirs == [i \in 1..3 |-> [a |-> "direct", p |-> PeerSeq[i], on |-> TRUE]]
+        dirs == [i \in DOMAIN PeerSeq |-> [a |-> "direct", p |-> PeerSeq[i], on |-> TRUE]]
         dsel == SelectSeq(dirs, LAMBDA d : d.p \in var.direct)
-        join == IF StartJoined THEN <<[a |-> "subscribe", t |-> T]>> ELSE <<>>
+        \* graftfull: a heartbeat first, so that everything up to the probe happens between two heartbeats
+        join == IF StartJoined THEN (IF fam = "graftfull" THEN <<[a |-> "hb"]>> ELSE <<>>) \o <<[a |-> "subscribe", t |-> T]>> ELSE <<>>
         late == IF Late THEN <<[a |-> "sub", p |-> Probe, t |-> T, v |-> TRUE]>> ELSE <<>>
     IN conn \o dsel \o join \o late
 
@@ -99,6 +106,11 @@ Prog ==
       [] Family = "gater"   -> <<Plain("gaterprep"), ScoreSlot(Probe, GaterScores),
                                  {In("rpc", Probe, 0, m, <<>>) : m \in GaterMixes},
                                  {In("rpc", Probe, 0, m, <<>>) : m \in GaterMixes}, Plain("gaterrelease")>>
+      [] Family = "graftfull" -> <<{In("rpc", "p2", 0, {"graft"}, <<>>)}, {In("rpc", "p3", 0, {"graft"}, <<>>)},
+                                   {In("rpc", "p4", 0, {"graft"}, <<>>)}, {In("rpc", "p5", 0, {"graft"}, <<>>)},
+                                   ScoreSlot(Probe, GV), {In("rpc", Probe, 0, {"graft"}, <<>>)}, Plain("hb")>>
+      [] Family = "graftbo" -> <<{In("rpc", Probe, 0, {"prune"}, <<>>)}, ScoreSlot(Probe, GV),
+                                 {In("rpc", Probe, 0, {"graft"}, <<>>)}, Plain("hb")>>
       [] Family = "meshA"   -> <<Plain("join")>> \o Vec \o <<Plain("publish"), {In("rpc", "p2", 0, {"msg"}, <<>>)}, Plain("hb"), Plain("hb")>>
       [] Family = "meshB"   -> Vec \o <<Plain("join"), Plain("publish"), Plain("hb")>>
       [] Family = "fanA"    -> <<Plain("publish")>> \o Vec \o <<Plain("publish"), Plain("hb"), Plain("publish")>>
@@ -156,8 +168,9 @@ GNext == /\ pc <= Len(Prog)
          /\ UNCHANGED <<vars, ts, fam, var>>
 GSpec == GInit /\ [][GNext]_<<gvars, vars>>
 
-Cfg == [score |-> TRUE, px |-> TRUE, flood |-> var.fpub, gater |-> fam = "gater", hosts |-> 12,
-        thr |-> gthr]
+BaseCfg == [score |-> TRUE, px |-> TRUE, flood |-> var.fpub, gater |-> fam = "gater", hosts |-> 12,
+            thr |-> gthr]
+Cfg == IF fam = "graftfull" THEN [D |-> 2, Dlo |-> 1, Dhi |-> 3, Dscore |-> 1, Dout |-> 0] @@ BaseCfg ELSE BaseCfg
 
 Emit == pc = Len(Prog) + 1 =>
           PrintT(<<"SCN", ToJson([cfg |-> Cfg, fam |-> Family, native |-> Native, thrset |-> ts, acts |-> Preamble \o hist])>>)
